@@ -514,7 +514,8 @@ def gen_program(check, mod, prog, templates, pgen, determinism=False, pkgname=No
     open(os.path.join(d, 'zz_verif_h0.go'), 'w').write(prog.harness_source(name))
     for i, t in enumerate(templates):
         txt = open(os.path.join(HARNESS, t)).read().replace('PKGNAME', name)
-        open(os.path.join(d, 'zz_verif_t%d.go' % i), 'w').write(txt)
+        fn = ('zz_verif_sym_%d.go' if t.endswith('_sym.go.tmpl') else 'zz_verif_t%d.go') % i
+        open(os.path.join(d, fn), 'w').write(txt)
     shutil.copy(intr_sym(name, check.scratch), os.path.join(d, 'zz_verif_i.go'))
     return info
 
